@@ -68,6 +68,30 @@ Proof.
   destruct (IH er (with_ty x (a_ty e) s)) as [A B]. rewrite A, B. auto.
 Qed.
 
+Lemma set_tys_tmpc : forall xs es s, tmpc (set_tys xs es s) = tmpc s.
+Proof. induction xs as [|x xr IH]; intros [|e er] s; cbn; auto. rewrite IH. reflexivity. Qed.
+
+Lemma tuple_global_tmpc : forall xs es s, tmpc (snd (tuple_global xs es s)) = tmpc s.
+Proof.
+  induction xs as [|x xr IH]; intros [|e er] s; cbn; auto.
+  destruct (closed_const e);
+    match goal with |- context [tuple_global xr er ?S] => specialize (IH er S); destruct (tuple_global xr er S) end;
+    cbn [snd] in *; rewrite IH; reflexivity.
+Qed.
+
+(* all names declared: the bindings are plain assignments from the temporaries *)
+Lemma tuple_binds_declared : forall xs es k s, length xs = length es ->
+  (forall x, In x xs -> is_declared x s = true) ->
+  tuple_binds xs es k s = (tup_asgs xs k, s).
+Proof.
+  induction xs as [|x xr IH]; intros [|e er] k s Hlen Hd; cbn in Hlen; try discriminate; [reflexivity|].
+  cbn [tuple_binds tup_asgs]. rewrite (Hd x (or_introl eq_refl)).
+  rewrite (IH er (k + 1) s); [reflexivity|congruence|intros; apply Hd; right; assumption].
+Qed.
+
+Lemma tuple_tmps_len : forall es k, length (tuple_tmps es k) = length es.
+Proof. induction es; intros; cbn; auto. Qed.
+
 Lemma tuple_global_spec : forall xs es s, length xs = length es ->
   fst (tuple_global xs es s) = tup_nodes xs es /\
   declared (snd (tuple_global xs es s)) = declared s ++ xs /\
@@ -83,30 +107,41 @@ Proof.
       rewrite <- !app_assoc; auto.
 Qed.
 
+(* the `continue` flag of the simple translation: at the level of the main loop *)
+Definition rt (ml : bool) (ld : nat) : bool := ml && Nat.eqb ld 1.
+
+Lemma rt_S ml ld : implb ml (Nat.leb 1 ld) = true -> rt ml (S ld) = false.
+Proof. unfold rt. destruct ml; [|reflexivity]. destruct ld as [|ld']; [discriminate|reflexivity]. Qed.
+Lemma ml_S ml ld : implb ml (Nat.leb 1 ld) = true -> implb ml (Nat.leb 1 (S ld)) = true.
+Proof. destruct ml; reflexivity. Qed.
+
 Lemma tr_block_simple ml : forall f gf glob top lm ld s D L ps D' ns s',
-  glob = top && negb lm -> implb lm (no_top_tuple ps) = true ->
+  implb ml (Nat.leb 1 ld) = true ->
+  glob = top && negb lm -> implb lm (no_top_tuple D ps) = true ->
   g_block gf top D L ps = Some D' -> Dec D L s ->
   tr_block ml f glob ld s ps = Some (ns, s') ->
-  ns = fst (trm top lm D ps) /\ globals s' = globals s ++ snd (trm top lm D ps) /\ Dec D' L s'.
+  ns = fst (trm (rt ml ld) (tmpc s) top lm D ps) /\ globals s' = globals s ++ snd (trm (rt ml ld) (tmpc s) top lm D ps) /\ Dec D' L s'
+  /\ (top = false -> tmpc s' = klist (tmpc s) ps).
 Proof.
-  induction f as [|f IH]; intros gf glob top lm ld s D L ps D' ns s' HGL Htup HG HD H; [discriminate|].
+  induction f as [|f IH]; intros gf glob top lm ld s D L ps D' ns s' Hml HGL Htup HG HD H; [discriminate|].
   destruct ps as [|p rest].
   - inversion H; subst. destruct gf; [discriminate|]. rewrite g_block_nil in HG. inversion HG; subst.
     rewrite trm_nil. cbn. rewrite app_nil_r. auto.
   - apply g_block_cons_inv in HG as (gf' & D1 & -> & HS & HG).
-    assert (Htr : implb lm (no_top_tuple rest) = true).
-    { destruct lm; [|reflexivity]. cbn [implb no_top_tuple forallb] in Htup |- *.
-      apply andb_true_iff in Htup as [_ Htup]. exact Htup. }
-    assert (K : forall ns0 s1 nsp gsp,
-               trm top lm D (p :: rest) = (nsp ++ fst (trm top lm D1 rest), gsp ++ snd (trm top lm D1 rest)) ->
+    assert (Htr : implb lm (no_top_tuple D1 rest) = true).
+    { destruct lm; [|reflexivity]. cbn [implb] in Htup |- *. eapply no_top_tuple_tail; [eapply g_step_ext; exact HS|exact Htup]. }
+    assert (K : forall ns0 s1 nsp gsp KN,
+               trm (rt ml ld) (tmpc s) top lm D (p :: rest) = (nsp ++ fst (trm (rt ml ld) KN top lm D1 rest), gsp ++ snd (trm (rt ml ld) KN top lm D1 rest)) ->
                match tr_block ml f glob ld s1 rest with
                | None => None | Some (ms, s2) => Some (ns0 ++ ms, s2) end = Some (ns, s') ->
-               ns0 = nsp -> globals s1 = globals s ++ gsp -> Dec D1 L s1 ->
-               ns = fst (trm top lm D (p :: rest)) /\ globals s' = globals s ++ snd (trm top lm D (p :: rest)) /\ Dec D' L s').
-    { intros ns0 s1 nsp gsp HT Hr -> Hg Hd.
+               ns0 = nsp -> globals s1 = globals s ++ gsp -> Dec D1 L s1 -> tmpc s1 = KN -> (top = false -> KN = knext (tmpc s) p) ->
+               ns = fst (trm (rt ml ld) (tmpc s) top lm D (p :: rest)) /\ globals s' = globals s ++ snd (trm (rt ml ld) (tmpc s) top lm D (p :: rest)) /\ Dec D' L s'
+               /\ (top = false -> tmpc s' = klist (tmpc s) (p :: rest))).
+    { intros ns0 s1 nsp gsp KN HT Hr -> Hg Hd Hk1 Hk2.
       destruct (tr_block ml f glob ld s1 rest) as [[ms s2]|] eqn:E; [|discriminate].
-      inversion Hr; subst. destruct (IH _ _ top lm _ _ _ _ _ _ _ _ eq_refl Htr HG Hd E) as (I1 & I2 & I3).
-      rewrite HT. cbn [fst snd]. rewrite I1, I2, Hg, app_assoc. auto. }
+      inversion Hr; subst ns s'. destruct (IH _ _ top lm _ _ _ _ _ _ _ _ Hml HGL Htr HG Hd E) as (I1 & I2 & I3 & I4).
+      rewrite HT. cbn [fst snd klist]. rewrite I1, I2, Hg, app_assoc, Hk1. repeat split; auto.
+      intro Ht. rewrite (I4 Ht), Hk1, <- (Hk2 Ht). reflexivity. }
     destruct p; cbn [tr_block] in H.
     + (* PAssign *)
       cbn [g_step] in HS. destruct (fv_ok D L e); [|discriminate].
@@ -115,35 +150,55 @@ Proof.
       destruct (tlookup x D) as [t|] eqn:Hl.
       * destruct (ty_eqb t (a_ty e)); [|discriminate]. inversion HS; subst D1.
         match type of H with context [tmem x ?l] => replace (tmem x l) with true in H by (symmetry; eapply tlookup_dom_true; eauto) end.
-        eapply (K _ _ [NAssign x (XE (a_id e))] []); [|exact H|reflexivity|cbn; rewrite app_nil_r; reflexivity|exact HD].
-        rewrite (trm_cons_old top lm D x e rest _ Hl), tr1_unfold. reflexivity.
-      * destruct top; [|discriminate]. inversion HS; subst D1.
+        eapply (K _ _ [NAssign x (XE (a_id e))] [] _); [|exact H|reflexivity|cbn; rewrite app_nil_r; reflexivity|exact HD|reflexivity|intros _; reflexivity].
+        rewrite (trm_cons_old (rt ml ld) (tmpc s) top lm D x e rest _ Hl), tr1_unfold. reflexivity.
+      * destruct top; [|discriminate]. destruct (is_tmp x); [discriminate|]. cbn [andb negb] in HS. inversion HS; subst D1.
         match type of H with context [tmem x ?l] => replace (tmem x l) with false in H by (symmetry; eapply tlookup_dom_false; eauto) end.
         destruct lm; cbn [andb negb] in HGL; subst glob.
         -- (* main-loop body: a local declaration in place *)
            assert (HD1 : Dec (D ++ [(x, a_ty e)]) L (declare x (with_ty x (a_ty e) s))).
            { intro y. cbn [declare with_ty declared]. rewrite map_app, !tmem_app, (HD y). cbn [map fst].
              apply bool3. }
-           pose proof (trm_cons_newl D x e rest Hl) as HT.
-           eapply (K _ _ [NDecl x (a_ty e) (XE (a_id e)) false] []); [exact HT|exact H|reflexivity|cbn; rewrite app_nil_r; reflexivity|apply HD1].
+           pose proof (trm_cons_newl (rt ml ld) (tmpc s) D x e rest Hl) as HT.
+           eapply (K _ _ [NDecl x (a_ty e) (XE (a_id e)) false] [] _); [exact HT|exact H|reflexivity|cbn; rewrite app_nil_r; reflexivity|apply HD1|reflexivity|intros _; reflexivity].
         -- assert (HD1 : forall g, Dec (D ++ [(x, a_ty e)]) L (add_global g (declare x (with_ty x (a_ty e) s)))).
            { intros g y. cbn [add_global declare with_ty declared]. rewrite map_app, !tmem_app, (HD y). cbn [map fst].
              apply bool3. }
-           pose proof (trm_cons_new D x e rest Hl) as HT.
+           pose proof (trm_cons_new (rt ml ld) (tmpc s) D x e rest Hl) as HT.
            destruct (closed_const e).
-           ++ eapply (K _ _ [] [_]); [exact HT|exact H|reflexivity|reflexivity|apply HD1].
-           ++ eapply (K _ _ [NAssign x (XE (a_id e))] [_]); [exact HT|exact H|reflexivity|reflexivity|apply HD1].
+           ++ eapply (K _ _ [] [_] _); [exact HT|exact H|reflexivity|reflexivity|apply HD1|reflexivity|intros _; reflexivity].
+           ++ eapply (K _ _ [NAssign x (XE (a_id e))] [_] _); [exact HT|exact H|reflexivity|reflexivity|apply HD1|reflexivity|intros _; reflexivity].
     + (* PAug *)
       cbn [g_step] in HS. destruct (fv_ok D L e); [|discriminate].
       destruct (tmem x L) eqn:HxL; [discriminate|]. cbn [negb orb] in HS.
       destruct (tlookup x D) as [t|] eqn:Hl; [|discriminate].
       destruct (ty_eqb t t_after); [|discriminate]. inversion HS; subst D1.
-      eapply (K _ _ [NAssign x (XAug x op (a_id e))] []); [|exact H|reflexivity|cbn; rewrite app_nil_r; reflexivity|exact HD].
-      rewrite (trm_cons_other top lm D (PAug x op e t_after) rest I), tr1_unfold. reflexivity.
-    + (* PTuple: declaration of new globals *)
-      cbn [g_step] in HS. destruct (top && tuple_decl_ok D L xs es) eqn:Hk; [|discriminate].
+      eapply (K _ _ [NAssign x (XAug x op (a_id e))] [] _); [|exact H|reflexivity|cbn; rewrite app_nil_r; reflexivity|exact HD|reflexivity|intros _; reflexivity].
+      rewrite (trm_cons_other (rt ml ld) (tmpc s) top lm D (PAug x op e t_after) rest I), tr1_unfold. reflexivity.
+    + (* PTuple *)
+      cbn [g_step] in HS. destruct (tuple_asg_ok D L xs es) eqn:Hq.
+      { (* assignment of declared names: temporaries, then assignments *)
+        inversion HS; subst D1.
+        destruct (tuple_asg_ok_inv _ _ _ _ Hq) as (Hne & _ & Hty).
+        destruct (tuple_asg_tys_inv _ _ _ _ Hty) as [Hlen Hdom].
+        head_opt H a0 a1 E.
+        unfold tr_tuple in E. rewrite Hlen, Nat.leb_refl, firstn_all in E. cbn [negb] in E.
+        assert (Hdec : forall x, In x xs -> is_declared x s = true).
+        { intros x Hx. unfold is_declared. rewrite (HD x). destruct (Hdom x Hx) as [A _]. rewrite A. reflexivity. }
+        assert (Hall : forallb (fun x => negb (is_declared x s)) xs = false).
+        { destruct xs as [|x xr]; [congruence|]. cbn [forallb]. rewrite (Hdec x (or_introl eq_refl)). reflexivity. }
+        rewrite Hall in E. cbn [andb] in E.
+        destruct (set_tys_same xs es s) as [Y1 Y2]. pose proof (set_tys_tmpc xs es s) as Y3.
+        cbv zeta in E. rewrite Y3 in E. rewrite tuple_binds_declared in E; [|exact Hlen|].
+        2:{ intros x Hx. unfold is_declared. cbn [with_tmpc declared]. rewrite Y1. apply Hdec. exact Hx. }
+        inversion E; subst a0 a1. clear E.
+        eapply (K _ _ (tuple_tmps es (tmpc s) ++ tup_asgs xs (tmpc s)) [] _);
+          [|exact H|reflexivity|cbn [with_tmpc globals]; rewrite Y2, app_nil_r; reflexivity| |cbn [with_tmpc tmpc]; reflexivity|intros _; reflexivity].
+        - rewrite (trm_cons_tuple_asg (rt ml ld) (tmpc s) top lm D L xs es rest Hq), tr1_unfold. reflexivity.
+        - intro y. cbn [with_tmpc declared]. rewrite Y1. apply HD. }
+      destruct (top && tuple_decl_ok D L xs es) eqn:Hk; [|discriminate].
       inversion HS; subst D1. apply andb_true_iff in Hk as [-> Hk].
-      destruct lm; [cbn in Htup; discriminate|]. cbn [andb negb] in HGL. subst glob.
+      destruct lm; [exfalso; cbn [implb] in Htup; eapply no_top_tuple_decl; eauto|]. cbn [andb negb] in HGL. subst glob.
       destruct (tuple_decl_ok_inv _ _ _ _ Hk) as (Hlen & _ & Hnew & Hnd).
       head_opt H a0 a1 E.
       unfold tr_tuple in E. rewrite Hlen, Nat.leb_refl, firstn_all in E. cbn [negb] in E.
@@ -154,9 +209,11 @@ Proof.
       destruct (tuple_global_spec xs es (set_tys xs es s) Hlen) as (T1 & T2 & T3).
       destruct (set_tys_same xs es s) as [Y1 Y2]. rewrite Y1 in T2. rewrite Y2 in T3.
       rewrite E' in T1, T2, T3. cbn [fst snd] in T1, T2, T3.
-      eapply (K _ _ (tup_nodes xs es) (tup_globals xs es)); [exact (trm_cons_tuple D L xs es rest Hk)|exact H|exact T1|exact T3|].
-      intro y. rewrite T2, map_app, map_fst_combine by (rewrite map_length; exact Hlen).
-      rewrite !tmem_app, (HD y). apply bool3.
+      pose proof (tuple_global_tmpc xs es (set_tys xs es s)) as T4. rewrite E' in T4. cbn [snd] in T4. rewrite set_tys_tmpc in T4.
+      eapply (K _ _ (tup_nodes xs es) (tup_globals xs es) _); [exact (trm_cons_tuple (rt ml ld) (tmpc s) D L xs es rest Hk)|exact H|exact T1|exact T3| |exact T4|].
+      * intro y. rewrite T2, map_app, map_fst_combine by (rewrite map_length; exact Hlen).
+        rewrite !tmem_app, (HD y). apply bool3.
+      * intro Hf. discriminate Hf.
     + (* PIf *)
       cbn [g_step] in HS.
       match type of HS with (if ?cnd then _ else _) = _ => destruct cnd eqn:Hc; [|discriminate] end.
@@ -167,28 +224,28 @@ Proof.
       { intros cb Hin. rewrite forallb_forall in H2. specialize (H2 _ Hin).
         apply andb_true_iff in H2 as [_ H2]. apply nested_true in H2. exact H2. }
       clear H2.
-      assert (HT : trm top lm D (PIf c body elifs els :: rest) =
-                   ([NIf ((a_id c, trn body) :: trnb elifs) (trn els)] ++ fst (trm top lm D rest), [] ++ snd (trm top lm D rest))).
-      { rewrite (trm_cons_other top lm D (PIf c body elifs els) rest I), tr1_unfold. reflexivity. }
+      assert (HT : trm (rt ml ld) (tmpc s) top lm D (PIf c body elifs els :: rest) =
+                   ([NIf ((a_id c, trn (rt ml ld) (tmpc s) body) :: trnb (rt ml ld) (tmpc s) elifs) (trn (rt ml ld) (tmpc s) els)] ++ fst (trm (rt ml ld) (tmpc s) top lm D rest), [] ++ snd (trm (rt ml ld) (tmpc s) top lm D rest))).
+      { rewrite (trm_cons_other (rt ml ld) (tmpc s) top lm D (PIf c body elifs els) rest I), tr1_unfold. reflexivity. }
       head_opt H a0 a1 E.
       destruct (tr_block ml f false ld (child_of s (globals s)) body) as [[ns1 cs1]|] eqn:E1; [|discriminate].
-      destruct (IH _ false false false _ _ _ _ _ _ _ _ eq_refl eq_refl H1 (Dec_child D L s (globals s) HD) E1) as (I1 & I2 & I3).
-      cbn [trm fst snd child_of globals] in I1, I2. rewrite app_nil_r in I2.
+      destruct (IH _ false false false _ _ _ _ _ _ _ _ Hml eq_refl eq_refl H1 (Dec_child D L s (globals s) HD) E1) as (I1 & I2 & I3 & I4).
+      cbn [trm fst snd child_of globals tmpc] in I1, I2, I4. rewrite app_nil_r in I2.
       match type of E with
       | context [?B (globals cs1) elifs] => set (BR := B) in *
       end.
       assert (HB : forall l gl brs gl', gl = globals s ->
                    (forall cb, In cb l -> g_block gf' false D L (snd cb) = Some D) ->
                    BR gl l = Some (brs, gl') ->
-                   gl' = globals s /\ map (fun x : Z * list cnode * tst => (fst (fst x), snd (fst x))) brs = trnb l /\
+                   gl' = globals s /\ map (fun x : Z * list cnode * tst => (fst (fst x), snd (fst x))) brs = trnb (rt ml ld) (tmpc s) l /\
                    Forall (fun x : Z * list cnode * tst => Dec D L (snd x)) brs).
       { induction l as [|[c' b] r IHl]; intros gl brs gl' Hgl Hgd Hb; cbn in Hb.
         - inversion Hb; subst. auto.
         - destruct (tr_block ml f false ld (child_of s gl) b) as [[nsb cs]|] eqn:Eb; [|discriminate].
           destruct (BR (globals cs) r) as [[rest' gl'']|] eqn:Er; [|discriminate].
           inversion Hb; subst brs gl''. clear Hb.
-          destruct (IH _ false false false _ _ _ _ _ _ _ _ eq_refl eq_refl (Hgd (c', b) (or_introl eq_refl)) (Dec_child D L s gl HD) Eb) as (J1 & J2 & J3).
-          cbn [trm fst snd child_of globals] in J1, J2. rewrite app_nil_r in J2.
+          destruct (IH _ false false false _ _ _ _ _ _ _ _ Hml eq_refl eq_refl (Hgd (c', b) (or_introl eq_refl)) (Dec_child D L s gl HD) Eb) as (J1 & J2 & J3 & J4).
+          cbn [trm fst snd child_of globals tmpc] in J1, J2. rewrite app_nil_r in J2.
           destruct (IHl (globals cs) rest' gl') as (K1 & K2 & K3); [congruence|intros; apply Hgd; right; assumption|exact Er|].
           split; [exact K1|]. split; [cbn; rewrite K2, J1; reflexivity|constructor; assumption]. }
       destruct (BR (globals cs1) elifs) as [[brs0 gl1]|] eqn:Ebr; [|discriminate].
@@ -199,7 +256,7 @@ Proof.
       { intro l. apply map_ext. intros [[c0 n0] t0]. cbn. rewrite map_rewrite_if_nil. reflexivity. }
       assert (FIN : forall (elsn : list cnode) (ctxs : list tst) (COL : list tst -> list ident -> list (ident * ty)),
                  (forall cl seen, Forall (Dec D L) cl -> COL cl seen = @nil (ident * ty)) ->
-                 Forall (Dec D L) ctxs -> elsn = trn els ->
+                 Forall (Dec D L) ctxs -> elsn = trn (rt ml ld) (tmpc s) els ->
                  (let '(decls, s3) :=
                     promo_decls glob (COL ctxs [])
                       (fold_left (fun acc xt => with_ty (fst xt) (snd xt) acc) (COL ctxs [])
@@ -207,12 +264,13 @@ Proof.
                   Some (decls ++ [NIf (map (fun x : Z * list cnode * tst => (fst (fst x), map (rewrite_if (map fst (COL ctxs []))) (snd (fst x))))
                                          ((a_id c, ns1, cs1) :: brs0))
                                       (map (rewrite_if (map fst (COL ctxs []))) elsn)], s3)) = Some (a0, a1) ->
-                 ns = fst (trm top lm D (PIf c body elifs els :: rest)) /\
-                   globals s' = globals s ++ snd (trm top lm D (PIf c body elifs els :: rest)) /\ Dec D' L s').
+                 ns = fst (trm (rt ml ld) (tmpc s) top lm D (PIf c body elifs els :: rest)) /\
+                   globals s' = globals s ++ snd (trm (rt ml ld) (tmpc s) top lm D (PIf c body elifs els :: rest)) /\ Dec D' L s' /\
+                   (top = false -> tmpc s' = klist (tmpc s) (PIf c body elifs els :: rest))).
       { intros elsn ctxs COL HCOL HF -> HE. rewrite (HCOL ctxs [] HF) in HE.
         cbn [promo_decls fold_left map] in HE. rewrite RW in HE. rewrite !map_rewrite_if_nil in HE. cbn [map fst snd] in HE.
         rewrite B2, I1 in HE. inversion HE; subst a0 a1. clear HE.
-        eapply (K _ _ _ _ HT); [exact H|reflexivity|cbn [globals]; rewrite B1, app_nil_r; reflexivity|exact HD]. }
+        eapply (K _ _ _ _ _ HT); [exact H|reflexivity|cbn [globals]; rewrite B1, app_nil_r; reflexivity|exact HD|reflexivity|intros _; reflexivity]. }
       assert (HCOLg : forall cl seen, Forall (Dec D L) cl ->
                  (fix collect (cl : list tst) (seen : list ident) {struct cl} : list (ident * ty) :=
                     match cl with
@@ -230,8 +288,8 @@ Proof.
       * eapply (FIN [] (map (fun x : Z * list cnode * tst => snd x) ((a_id c, ns1, cs1) :: brs0) ++ []) _ HCOLg); [|reflexivity|exact E].
         apply Forall_app. split; [exact B3'|constructor].
       * destruct (tr_block ml f false ld (child_of s gl1) (e0 :: els')) as [[nse cse]|] eqn:Ee; [|discriminate].
-        destruct (IH _ false false false _ _ _ _ _ _ _ _ eq_refl eq_refl H3 (Dec_child D L s gl1 HD) Ee) as (J1 & J2 & J3).
-        cbn [trm fst snd child_of globals] in J1, J2. rewrite app_nil_r in J2.
+        destruct (IH _ false false false _ _ _ _ _ _ _ _ Hml eq_refl eq_refl H3 (Dec_child D L s gl1 HD) Ee) as (J1 & J2 & J3 & J4).
+        cbn [trm fst snd child_of globals tmpc] in J1, J2. rewrite app_nil_r in J2.
         cbn [globals] in E. rewrite J2 in E.
         eapply (FIN nse (map (fun x : Z * list cnode * tst => snd x) ((a_id c, ns1, cs1) :: brs0) ++ [cse]) _ HCOLg); [|exact J1|exact E].
         apply Forall_app. split; [exact B3'|constructor; [exact J3|constructor]].
@@ -241,20 +299,22 @@ Proof.
       inversion HS; subst D1. apply andb_true_iff in Hc as [_ H1]. apply nested_true in H1.
       head_opt H a0 a1 E.
       destruct (tr_block ml f false (S ld) (child_of s (globals s)) body) as [[nsb cs]|] eqn:Eb; [|discriminate].
-      destruct (IH _ false false false _ _ _ _ _ _ _ _ eq_refl eq_refl H1 (Dec_child D L s (globals s) HD) Eb) as (I1 & I2 & I3).
-      cbn [trm fst snd child_of globals] in I1, I2. rewrite app_nil_r in I2.
+      destruct (IH _ false false false _ _ _ _ _ _ _ _ (ml_S _ _ Hml) eq_refl eq_refl H1 (Dec_child D L s (globals s) HD) Eb) as (I1 & I2 & I3 & I4).
+      cbn [trm fst snd child_of globals tmpc] in I1, I2, I4. rewrite app_nil_r in I2.
       rewrite (Dec_new_names D L s cs HD I3) in E. rewrite filter_tmem_nil in E.
       cbn [dedup app filter map fold_left promo_decls] in E. rewrite map_rewrite_deep_nil in E.
       inversion E; subst a0 a1. clear E.
-      eapply (K _ _ [NWhile (a_id c) (trn body)] []);
-        [|exact H|subst nsb; reflexivity|cbn [globals]; rewrite I2, app_nil_r; reflexivity|exact HD].
-      rewrite (trm_cons_other top lm D (PWhile c body) rest I), tr1_unfold. reflexivity.
+      rewrite (rt_S _ _ Hml) in I1.
+      eapply (K _ _ [NWhile (a_id c) (trn false (tmpc s) body)] [] _);
+        [|exact H|subst nsb; reflexivity|cbn [globals]; rewrite I2, app_nil_r; reflexivity|exact HD|cbn [tmpc]; exact (I4 eq_refl)|intros _; rewrite knext_unfold; reflexivity].
+      rewrite (trm_cons_other (rt ml ld) (tmpc s) top lm D (PWhile c body) rest I), tr1_unfold. reflexivity.
     + (* PFor *)
       cbn [g_step] in HS.
       match type of HS with (if ?cnd then _ else _) = _ => destruct cnd eqn:Hc; [|discriminate] end.
       inversion HS; subst D1.
       apply andb_true_iff in Hc as [Hc H8]. apply andb_true_iff in Hc as [Hc H7].
       apply andb_true_iff in Hc as [Hc H6]. apply andb_true_iff in Hc as [Hc H5].
+      apply andb_true_iff in Hc as [Hc H4t].
       apply andb_true_iff in Hc as [Hc H4]. apply andb_true_iff in Hc as [Hc H3].
       apply nested_true in H8. apply negb_true_iff in H3, H4.
       head_opt H a0 a1 E.
@@ -267,32 +327,43 @@ Proof.
       assert (HDb : Dec D (x :: L) base).
       { intro y. unfold base. cbn [declared]. rewrite tmem_app, (HD y). cbn [tmem].
         destruct (tmem y (map fst D)), (tmem y L), (text_eqb y x); reflexivity. }
-      destruct (IH _ false false false _ _ _ _ _ _ _ _ eq_refl eq_refl H8 HDb Eb) as (I1 & I2 & I3).
-      cbn [trm fst snd] in I1, I2. rewrite app_nil_r in I2.
+      destruct (IH _ false false false _ _ _ _ _ _ _ _ (ml_S _ _ Hml) eq_refl eq_refl H8 HDb Eb) as (I1 & I2 & I3 & I4).
+      cbn [trm fst snd tmpc] in I1, I2, I4. rewrite app_nil_r in I2.
       rewrite (Dec_new_names D (x :: L) base cs HDb I3) in E. rewrite filter_tmem_nil in E.
       cbn [dedup app filter map fold_left promo_decls] in E. rewrite map_rewrite_deep_nil in E.
       inversion E; subst a0 a1. clear E.
-      eapply (K _ _ [NFor x (a_id cnt) (trn body)] []);
-        [|exact H|subst nsb; reflexivity|cbn [globals]; rewrite I2, app_nil_r; reflexivity|exact HD].
-      rewrite (trm_cons_other top lm D (PFor x cnt body) rest I), tr1_unfold. reflexivity.
+      rewrite (rt_S _ _ Hml) in I1.
+      eapply (K _ _ [NFor x (a_id cnt) (trn false (tmpc s) body)] [] _);
+        [|exact H|subst nsb; reflexivity|cbn [globals]; rewrite I2, app_nil_r; reflexivity|exact HD|cbn [tmpc]; exact (I4 eq_refl)|intros _; rewrite knext_unfold; reflexivity].
+      rewrite (trm_cons_other (rt ml ld) (tmpc s) top lm D (PFor x cnt body) rest I), tr1_unfold. reflexivity.
     + (* PBreak *)
       cbn [g_step] in HS. inversion HS; subst D1.
-      assert (HT : trm top lm D (PBreak :: rest) = ([NBreak] ++ fst (trm top lm D rest), [] ++ snd (trm top lm D rest))).
-      { rewrite (trm_cons_other top lm D PBreak rest I), tr1_unfold. reflexivity. }
+      assert (HT : trm (rt ml ld) (tmpc s) top lm D (PBreak :: rest) = ([NBreak] ++ fst (trm (rt ml ld) (tmpc s) top lm D rest), [] ++ snd (trm (rt ml ld) (tmpc s) top lm D rest))).
+      { rewrite (trm_cons_other (rt ml ld) (tmpc s) top lm D PBreak rest I), tr1_unfold. reflexivity. }
       destruct ld as [|[|ld']]; [discriminate| |].
       * destruct ml; [discriminate|].
-        eapply (K _ _ _ _ HT); [exact H|reflexivity|cbn; rewrite app_nil_r; reflexivity|exact HD].
-      * eapply (K _ _ _ _ HT); [exact H|reflexivity|cbn; rewrite app_nil_r; reflexivity|exact HD].
+        eapply (K _ _ _ _ _ HT); [exact H|reflexivity|cbn; rewrite app_nil_r; reflexivity|exact HD|reflexivity|intros _; reflexivity].
+      * eapply (K _ _ _ _ _ HT); [exact H|reflexivity|cbn; rewrite app_nil_r; reflexivity|exact HD|reflexivity|intros _; reflexivity].
+    + (* PContinue *)
+      cbn [g_step] in HS. inversion HS; subst D1.
+      assert (HT : trm (rt ml ld) (tmpc s) top lm D (PContinue :: rest) =
+                   ((if rt ml ld then [NReturn] else [NContinue]) ++ fst (trm (rt ml ld) (tmpc s) top lm D rest), [] ++ snd (trm (rt ml ld) (tmpc s) top lm D rest))).
+      { rewrite (trm_cons_other (rt ml ld) (tmpc s) top lm D PContinue rest I), tr1_unfold. reflexivity. }
+      unfold rt in HT at 2.
+      destruct ld as [|[|ld']]; [discriminate| |].
+      * destruct ml; cbn [andb Nat.eqb] in HT;
+          (eapply (K _ _ _ _ _ HT); [exact H|reflexivity|cbn; rewrite app_nil_r; reflexivity|exact HD|reflexivity|intros _; reflexivity]).
+      * rewrite andb_false_r in HT. eapply (K _ _ _ _ _ HT); [exact H|reflexivity|cbn; rewrite app_nil_r; reflexivity|exact HD|reflexivity|intros _; reflexivity].
     + cbn [g_step] in HS. destruct (fv_ok D L e); [|discriminate]. inversion HS; subst D1.
-      eapply (K _ _ [NWrite (a_id e)] []); [|exact H|reflexivity|cbn; rewrite app_nil_r; reflexivity|exact HD].
-      rewrite (trm_cons_other top lm D (PWrite e) rest I), tr1_unfold. reflexivity.
+      eapply (K _ _ [NWrite (a_id e)] [] _); [|exact H|reflexivity|cbn; rewrite app_nil_r; reflexivity|exact HD|reflexivity|intros _; reflexivity].
+      rewrite (trm_cons_other (rt ml ld) (tmpc s) top lm D (PWrite e) rest I), tr1_unfold. reflexivity.
     + cbn [g_step] in HS. destruct (fv_ok D L e); [|discriminate]. inversion HS; subst D1.
-      eapply (K _ _ [NSleep (a_id e)] []); [|exact H|reflexivity|cbn; rewrite app_nil_r; reflexivity|exact HD].
-      rewrite (trm_cons_other top lm D (PSleep e) rest I), tr1_unfold. reflexivity.
+      eapply (K _ _ [NSleep (a_id e)] [] _); [|exact H|reflexivity|cbn; rewrite app_nil_r; reflexivity|exact HD|reflexivity|intros _; reflexivity].
+      rewrite (trm_cons_other (rt ml ld) (tmpc s) top lm D (PSleep e) rest I), tr1_unfold. reflexivity.
     + cbn [g_step] in HS. destruct (fv_ok D L e); [|discriminate]. inversion HS; subst D1.
-      assert (HT : trm top lm D (PExprS e :: rest) =
-                   ((if closed_const e then [] else [NExprS (a_id e)]) ++ fst (trm top lm D rest), [] ++ snd (trm top lm D rest))).
-      { rewrite (trm_cons_other top lm D (PExprS e) rest I), tr1_unfold. reflexivity. }
+      assert (HT : trm (rt ml ld) (tmpc s) top lm D (PExprS e :: rest) =
+                   ((if closed_const e then [] else [NExprS (a_id e)]) ++ fst (trm (rt ml ld) (tmpc s) top lm D rest), [] ++ snd (trm (rt ml ld) (tmpc s) top lm D rest))).
+      { rewrite (trm_cons_other (rt ml ld) (tmpc s) top lm D (PExprS e) rest I), tr1_unfold. reflexivity. }
       destruct (closed_const e);
-        (eapply (K _ _ _ _ HT); [exact H|reflexivity|cbn; rewrite app_nil_r; reflexivity|exact HD]).
+        (eapply (K _ _ _ _ _ HT); [exact H|reflexivity|cbn; rewrite app_nil_r; reflexivity|exact HD|reflexivity|intros _; reflexivity]).
 Qed.
